@@ -49,7 +49,82 @@ func acSet(a diff.AllowedConnectivity) *common.ConnectionSet {
 }
 
 // runDiff executes the real diff; returns the canonical S-expression and the entries.
+// text of the error of the last runDiff call (cases run one after the other in a process)
+var lastDiffErrText string
+
+// conflictNamed: does the error text name a conflict of its class that the world holds? (C19: "an error naming the
+// conflict"). Classes whose message carries no object name (a second baseline policy, a baseline policy with another
+// name) are described by the message itself.
+func conflictNamed(w *World, cls, text string) bool {
+	switch cls {
+	case "dupNetpol":
+		seen := map[string]bool{}
+		for _, o := range w.Objs {
+			if o.Kind == "np" {
+				k := o.Np.EffNS() + "/" + o.Np.Name
+				if seen[k] && strings.Contains(text, fmt.Sprintf("%q", k)) {
+					return true
+				}
+				seen[k] = true
+			}
+		}
+		return false
+	case "dupANP":
+		seen := map[string]bool{}
+		for _, o := range w.Objs {
+			if o.Kind == "anp" {
+				if seen[o.Anp.Name] && strings.Contains(text, fmt.Sprintf("%q", o.Anp.Name)) {
+					return true
+				}
+				seen[o.Anp.Name] = true
+			}
+		}
+		return false
+	case "anpPriority":
+		for i, a := range w.Objs {
+			if a.Kind != "anp" {
+				continue
+			}
+			if (a.Anp.Prio < 0 || a.Anp.Prio > 1000) && strings.Contains(text, fmt.Sprintf("Invalid Priority Value: %d in Admin Network Policy: %q", a.Anp.Prio, a.Anp.Name)) {
+				return true
+			}
+			for j, b := range w.Objs {
+				if i != j && b.Kind == "anp" && a.Anp.Prio == b.Anp.Prio && strings.Contains(text, ": "+a.Anp.Name+" and "+b.Anp.Name+" have same priority") {
+					return true
+				}
+			}
+		}
+		return false
+	case "ownerLabels":
+		type own struct{ ns, kind, name string }
+		labelsOf := map[own][]string{}
+		add := func(k own, l []KV) {
+			ls := append([]KV{}, l...)
+			sort.Slice(ls, func(i, j int) bool { return ls[i][0] < ls[j][0] })
+			labelsOf[k] = append(labelsOf[k], fmt.Sprint(ls))
+		}
+		for _, o := range w.Objs {
+			if o.Kind == "pod" && o.Pod.OwnerName != "" {
+				add(own{o.Pod.NS, o.Pod.OwnerKind, o.Pod.OwnerName}, o.Pod.Labels)
+			}
+			if o.Kind == "wl" {
+				add(own{o.Wl.NS, o.Wl.Kind, o.Wl.Name}, o.Wl.Labels)
+			}
+		}
+		for k, ls := range labelsOf {
+			for _, x := range ls {
+				if x != ls[0] && strings.Contains(text, k.name) {
+					return true
+				}
+			}
+		}
+		return false
+	}
+	return true
+}
+
 func runDiff(dirA, dirB string, stop bool) (res *Sx, entries []diffEntry, errCls string, panicked string) {
+	lastDiffErrText = ""
 	opts := []diff.DiffAnalyzerOption{diff.WithLogger(nullLogger{})}
 	if stop {
 		opts = append(opts, diff.WithStopOnError())
@@ -69,6 +144,7 @@ func runDiff(dirA, dirB string, stop bool) (res *Sx, entries []diffEntry, errCls
 		return Ls(At("panic")), nil, "", panicked
 	}
 	if err != nil {
+		lastDiffErrText = err.Error()
 		return errSx(err), nil, classifyErr(err), ""
 	}
 	if cd == nil {
@@ -282,6 +358,23 @@ func execWDiff(c *Sx, env *execEnv) (*Sx, []Violation) {
 		return out, viols
 	}
 	env.count("diff:" + args[1].A)
+	// C19: the error of a conflict names the conflicting objects (list on either side, and diff)
+	for _, x := range []struct {
+		w    *World
+		r    *relation
+		side string
+	}{{wa, ra, "A"}, {wb, rb, "B"}} {
+		if !x.r.ok && x.r.errCls != "" {
+			if !conflictNamed(x.w, x.r.errCls, x.r.errText) {
+				rep("C19", "conflict-not-named", fmt.Sprintf("list %s fails with class %s but the message names no such conflict of the input: %s", x.side, x.r.errCls, x.r.errText[:min(300, len(x.r.errText))]))
+			} else {
+				env.count("conflict-named:" + x.r.errCls)
+			}
+		}
+	}
+	if cls := classifyErr(fmt.Errorf("%s", lastDiffErrText)); lastDiffErrText != "" && !conflictNamed(wa, cls, lastDiffErrText) && !conflictNamed(wb, cls, lastDiffErrText) {
+		rep("C19", "conflict-not-named-by-diff", fmt.Sprintf("diff fails with class %s but the message names no such conflict of either input: %s", cls, lastDiffErrText[:min(300, len(lastDiffErrText))]))
+	}
 	if ra.ok && rb.ok {
 		if res.Head() != "ok" {
 			rep("C04", "diff-fails-where-list-succeeds", res.String())
